@@ -134,6 +134,7 @@ def reprObs : Obs → List String
   | .call h s p => [s!"C{h}{reprKPs s}{reprKPs p}"]
   | .bell => ["L"]
   | .drop k => [s!"D{reprKP k}"]
+  | .requeue ks => [s!"Q{reprKPs ks}"]
   | .raise h s p => [s!"C{h}{reprKPs s}{reprKPs p}", "R"]
 
 def sameIdx (fl : Array F) (r : F) : Int :=
